@@ -68,10 +68,14 @@ fn leaf(c: char, i: usize) -> ANode {
 /// all start states of the catalogue (deterministic order)
 pub fn catalogue() -> Vec<StartState> {
     let outer = seqs(&['T', 'E', 'C'], 3);
+    // mixed mode (built with adjacent text, then consolidation on): also four children, so that a run of
+    // three text nodes can sit next to a non-text reference node
+    let outer4: Vec<Vec<char>> = seqs(&['T', 'E', 'C'], 4).into_iter().filter(|s| s.len() == 4 && s.windows(3).any(|w| w == ['T', 'T', 'T'])).collect();
     let inner = seqs(&['T', 'E', 'C'], 2);
     let mut out = Vec::new();
     for (consolidation, call_consolidation) in [(true, true), (false, false), (false, true)] {
-        for o in &outer {
+        let mixed = !consolidation && call_consolidation;
+        for o in outer.iter().chain(outer4.iter().filter(|_| mixed)) {
             // the mixed mode is only interesting when adjacent text nodes exist
             if !consolidation && call_consolidation && !has_adjacent_text(o) {
                 continue;
